@@ -247,6 +247,47 @@ func run(args []string) {
 		}()
 	}
 	wg.Wait()
+	// A case that hit the deadline while all workers were busy is run once more on its own:
+	// only a case that also exceeds the deadline without competing workers counts as a timeout.
+	for i := range lines {
+		var o Obs
+		if json.Unmarshal(results[i], &o) != nil || o.St != "timeout" {
+			continue
+		}
+		ch, err := spawn(*mem)
+		if err != nil {
+			continue
+		}
+		t0 := time.Now()
+		ch.in.Write(lines[i])
+		ch.in.Write([]byte{'\n'})
+		type rd struct {
+			b   []byte
+			err error
+		}
+		rc := make(chan rd, 1)
+		go func(c *child) {
+			b, err := c.out.ReadBytes('\n')
+			rc <- rd{b, err}
+		}(ch)
+		select {
+		case r := <-rc:
+			if r.err != nil {
+				code := "worker died"
+				ch.kill()
+				if ch.cmd.ProcessState != nil {
+					code = ch.cmd.ProcessState.String()
+				}
+				results[i] = failObs(lines[i], "exit", code, time.Since(t0).Milliseconds())
+			} else {
+				results[i] = r.b[:len(r.b)-1]
+				ch.kill()
+			}
+		case <-time.After(*timeout):
+			ch.kill()
+			results[i] = failObs(lines[i], "timeout", timeout.String()+" (also when run alone)", time.Since(t0).Milliseconds())
+		}
+	}
 	w := bufio.NewWriter(out)
 	for _, r := range results {
 		w.Write(r)
